@@ -5,6 +5,7 @@ import (
 	"encoding/json"
 	"fmt"
 	"os"
+	"path/filepath"
 	"sync"
 	"sync/atomic"
 	"time"
@@ -103,6 +104,29 @@ func runStreamStress(sc stressCfg, res *vlib.Result) {
 			}
 		}(r)
 	}
+	var snaps atomic.Int64
+	if sc.Snapshots {
+		wg.Add(1)
+		go func() {
+			defer wg.Done()
+			dir, _ := os.MkdirTemp("", "verif-snap")
+			defer os.RemoveAll(dir)
+			n := 0
+			for !stop.Load() {
+				time.Sleep(15 * time.Millisecond)
+				for _, root := range stream.VerifTableRoots("/" + m.group + "/") {
+					n++
+					dst := filepath.Join(dir, fmt.Sprintf("s%d", n))
+					if serr := stream.VerifTakeFileSnapshot(root, dst); serr != nil {
+						fail("file snapshot: " + serr.Error())
+						return
+					}
+					snaps.Add(1)
+					_ = os.RemoveAll(dst)
+				}
+			}
+		}()
+	}
 	time.Sleep(time.Duration(sc.Millis) * time.Millisecond)
 	stop.Store(true)
 	wg.Wait()
@@ -112,6 +136,7 @@ func runStreamStress(sc stressCfg, res *vlib.Result) {
 	res.Stats["lifecycle_events"] = stream.VerifStopTrace()
 	res.Stats["visibility_events"] = vis.n
 	res.Stats["batches"] = int(batchSeq.Load())
+	res.Stats["file_snapshots"] = int(snaps.Load())
 	res.Behaviours = 1
 	res.Steps = res.Stats["lifecycle_events"] + vis.n
 	if f := failed.Load(); f != nil {
